@@ -10,8 +10,8 @@
 From stdpp Require Import gmap list.
 From Coq Require Import NArith ZArith.
 From VFS Require Import Core.Types Core.Prog Core.Calls Base.Store Layer.VfsPath Layer.Overlay Layer.Config
-  Proofs.CallsOk Proofs.AdapterOk Proofs.ConfigOk Proofs.Faults Proofs.IoStrict Proofs.OvlProofs.
-From VFS Require Import Base.MemFS.
+  Proofs.CallsOk Proofs.AdapterOk Proofs.ConfigOk Proofs.Faults Proofs.IoStrict Proofs.MemProofs Proofs.OvlProofs Proofs.CopyFile Proofs.IoCopy.
+From VFS Require Import Base.MemFS Base.Handles.
 
 Theorem C20_fault_is_io_error : forall k inner c bases hs lg io,
   run bhandler (wrap_impl k inner c) (mkStore bases hs lg (Some (k, 0)) io) =
@@ -101,6 +101,30 @@ Proof. exact handle_op_armed. Qed.
 Theorem C20_io_mode_survives : forall b st, st_io (fst (bhandler b st)) = st_io st.
 Proof. exact bhandler_io. Qed.
 
+(** the concrete picture between two MemoryFS instances: the copy reports an I/O error naming the caller's source
+    path; the source keeps its bytes (its access time stamped by the open); the destination is left as the EMPTY
+    file that create_file made - an error with a partial effect, never a success; both handles are closed *)
+Theorem C20_copy_file_under_io_fault : forall lg ft (s0 s1 : mstate) hs (p q : path) f m,
+  s1 !! p = Some f -> f_type f = File ->
+  q <> [] -> is_dir s0 (removelast q) -> s0 !! q = None ->
+  armed_for m (f_content f) ->
+  run bhandler (vp_copy_file v1 p v0 q) (set_io (mstore2 s0 s1 hs lg ft) m) =
+  (set_io (mstore2 (<[q := fresh_file []]> s0) (<[p := touched f]> s1) (hs ++ [HClosed; HClosed]) lg ft) m,
+   Err (mkErr EIo (PPath p))).
+Proof. exact copy_file_across_io_fault. Qed.
+
+(** the overlay's copy-up under failing handle I/O: append_file on a lower-only file fails with an I/O error, the lower
+    layer keeps its bytes; the EMPTY file left in the write layer by the failed copy now shadows them (an error with
+    a partial effect - allowed here, since nothing is reported as success - recorded because it is what the code does) *)
+Theorem C20_overlay_append_under_io_fault : forall lg ft (s0 s1 : mstate) hs (n : name) f m,
+  wf s0 -> s0 !! whiteout_path (v0, []) [] = None -> s0 !! whiteout_path (v0, []) [n] = None ->
+  s0 !! [n] = None -> s1 !! [n] = Some f -> f_type f = File -> armed_for m (f_content f) ->
+  exists e,
+    run bhandler (ovl_impl (v0, []) [(v1, [])] (CAppendFile [n])) (set_io (mstore2 s0 s1 hs lg ft) m) =
+    (set_io (mstore2 (<[[n] := fresh_file []]> s0) (<[[n] := touched f]> s1) (hs ++ [HClosed; HClosed]) lg ft) m, Err e) /\
+    e_kind e = EIo.
+Proof. exact append_copy_up_io_fault. Qed.
+
 Example C20_io_example :
   let s1 := fst (mem_step (CCreateFile [[97%N]]) mem_new) in
   let s1' := fst (msec_sem (MPublish [[97%N]] [104%N; 105%N]) s1) in
@@ -111,7 +135,7 @@ Example C20_io_example :
   snd (run bhandler cp (st IoOff)) = Ok tt.
 Proof.
   cbn zeta. repeat split; try (vm_compute; reflexivity);
-    cbn; repeat first [left; reflexivity|right].
+    vm_compute; repeat first [left; reflexivity|right].
 Qed.
 
 Example C20_example :
@@ -134,3 +158,5 @@ Print Assumptions C20_failed_handle_io_is_reported.
 Print Assumptions C20_failed_handle_io_changes_nothing.
 Print Assumptions C20_io_mode_survives.
 Print Assumptions C20_io_example.
+Print Assumptions C20_copy_file_under_io_fault.
+Print Assumptions C20_overlay_append_under_io_fault.
